@@ -143,7 +143,11 @@ def annotate(path, heap=True, versioned=()):
         elif ev.kind == 'assign':
             ev._subt = st.expr(ev.a, ev.frame, heap=False) if not isinstance(ev.a, ast.Name) else ev.a
             ret, rfr = ev.b
-            ev._sub = st.expr(ret, rfr, heap=heap, inline=True) if (ret is not None and ret is not _UNKNOWN) else None
+            prev = path.ev[i - 1] if i > 0 else None
+            if prev is not None and prev.kind == 'assign' and prev.node is ev.node and hasattr(prev, '_sub'):
+                ev._sub = prev._sub          # a = b = value: one evaluation of the value
+            else:
+                ev._sub = st.expr(ret, rfr, heap=heap, inline=True) if (ret is not None and ret is not _UNKNOWN) else None
     return replay(path, on, heap=heap, versioned=versioned)
 
 
